@@ -505,6 +505,10 @@ func (c *Conn) Closed() bool {
 	return atomic.LoadUint64(&c.closed) == 1
 }
 
+// closeWriteTimeout is how long Close waits for the peer to take what is being
+// written to it, the GOAWAY included.
+const closeWriteTimeout = time.Second
+
 // Close closes the connection gracefully, sending a GoAway message
 // and then closing the underlying TCP connection.
 func (c *Conn) Close() error {
@@ -516,6 +520,11 @@ func (c *Conn) Close() error {
 	// a send on a closed channel panics. Closing done tells it to stop instead.
 	close(c.done)
 	verifYield("close-after-done")
+
+	// A peer that has stopped reading would hold Close for ever: the write loop
+	// sits in a write with bwLck taken, and the GOAWAY is one more write. The
+	// deadline applies to the write already blocked as well as to ours.
+	_ = c.c.SetWriteDeadline(time.Now().Add(closeWriteTimeout))
 
 	fr := AcquireFrameHeader()
 	defer ReleaseFrameHeader(fr)
